@@ -19,7 +19,7 @@ EXPLANATION = (
     "are derived (zBot, z_top, zMid) are consumed only by the enumerated groundwater routines; the initial-water-content "
     "interpolation takes its mid-depths from the base column dzsum. C18.d (typestate): the scalars fill_nan derives from the frame (zSoil, nComp) are read, in every "
     "function that receives the user's Soil, only on paths that pass fill_nan() since the entry and since every dz update, and such a "
-    "function returns with the Soil fresh - so the deepening loop tests the real depth of the profile. C18.e: add_layer's two branches compare a depth from the surface (thickness, resp. thickness + a value read from dzsum) with the compartment bottoms under the same rounding (sibling agreement + quantity kinds). C18.f: the per-layer initial water content is written into layer depth_layer[i] with the value computed for request i (same index), never by position. C18.g: the requested layers are completed over all layers of the profile before the per-layer fill (an unlisted layer takes the last request, it does not keep the 0 of the allocation). C18.h: with a water table the adjusted field capacity replaces the initial content elementwise, only where field capacity was requested. C18.i: the depth points of the 'Depth' method reach np.interp in ascending order (permuted by an argsort, values with the same permutation). C18.j: every column add_layer writes for a layer is forward-filled by fill_nan over the compartments below the specified layers. C18.k: the thickness column is stored as floats (the deepening adds 0.1 m to single cells). NOT decided: arbitrary custom dz, pedotransfer "
+    "function returns with the Soil fresh - so the deepening loop tests the real depth of the profile. C18.e: add_layer's two branches compare a depth from the surface (thickness, resp. thickness + a value read from dzsum) with the compartment bottoms under the same rounding (sibling agreement + quantity kinds). C18.f: the per-layer initial water content is written into layer depth_layer[i] with the value computed for request i (same index), never by position. C18.g: the requested layers are completed over all layers of the profile before the per-layer fill (an unlisted layer takes the last request, it does not keep the 0 of the allocation). C18.h: with a water table the adjusted field capacity replaces the initial content elementwise, only where field capacity was requested. C18.i: the depth points of the 'Depth' method reach np.interp in ascending order (permuted by an argsort, values with the same permutation). C18.j: every column add_layer writes for a layer is forward-filled by fill_nan over the compartments below the specified layers. C18.k: the thickness column is stored as floats (the deepening adds 0.1 m to single cells). C18.l (T-ARGS): no call of initialisation or of the Soil class binds two positional arguments crosswise (layer properties th_wp / th_fc / th_s, sand / clay). NOT decided: arbitrary custom dz, pedotransfer "
     "ranges, numeric interpolation of initial water content.")
 
 DERIVED_CONSUMERS_OK = {
@@ -818,6 +818,10 @@ def rule_h(chk, prog, rule="C18.h"):
 
 
 def run(chk, prog, tier):
+    from ._args import arg_swaps
+    from ..common import INIT_ROOT
+    chk.floor("C18.l", arg_swaps(chk, prog, "C18.l", set(prog.reachable_from(INIT_ROOT)) | {k for k, f in prog.funcs.items() if f.cls == "Soil"}), 15,
+              "positional calls of repository functions in initialisation and the Soil class")
     rule_a(chk, prog)
     rule_b(chk, prog)
     rule_c(chk, prog)
